@@ -1,4 +1,5 @@
 SPECIFICATION Spec
+CONSTANT G <- GCubic
 CONSTANTS NMax = 4
  Met = {1, 2}
  EqualMetrics = FALSE
